@@ -135,4 +135,71 @@ theorem smb1DialectIndex_lt (ds : List Bytes) (h : ds ≠ []) : smb1DialectIndex
       · exact indexOf?_lt ‹_›
       · exact List.length_pos_iff.mpr h
 
+/-- `indexOf?` returns a position holding the searched string -/
+theorem indexOf?_getD {l : List Bytes} {x : Bytes} {i : Nat} (h : indexOf? l x = some i) : l.getD i [] = x := by
+  unfold indexOf? at h
+  dsimp only at h
+  split at h
+  · rename_i hlt
+    cases h
+    rw [List.getD_eq_getElem?_getD, List.getElem?_eq_getElem hlt]
+    simpa using List.findIdx_getElem (w := hlt)
+  · cases h
+
+theorem indexOf?_none {l : List Bytes} {x : Bytes} (h : indexOf? l x = none) : x ∉ l := by
+  unfold indexOf? at h
+  dsimp only at h
+  split at h
+  · cases h
+  · rename_i hge
+    intro hx
+    have := List.findIdx_lt_length_of_exists (p := (· = x)) (xs := l) ⟨x, hx, by simp⟩
+    omega
+
+/-- the index designates a dialect the responder speaks whenever the client offered one -/
+theorem smb1DialectIndex_speaks (ds : List Bytes) (h : ds.any Spec.smb1Speaks = true) :
+    Spec.smb1Speaks (ds.getD (smb1DialectIndex ds) []) = true := by
+  unfold smb1DialectIndex
+  split
+  · rename_i i hi; rw [indexOf?_getD hi]; simp [Spec.smb1Speaks]
+  · rename_i h1
+    split
+    · rename_i i hi; rw [indexOf?_getD hi]; simp [Spec.smb1Speaks]
+    · rename_i h2
+      split
+      · rename_i i hi; rw [indexOf?_getD hi]; simp [Spec.smb1Speaks]
+      · rename_i h3
+        exfalso
+        obtain ⟨x, hx, hsp⟩ := List.any_eq_true.mp h
+        have n1 := indexOf?_none h1
+        have n2 := indexOf?_none h2
+        have n3 := indexOf?_none h3
+        simp only [Spec.smb1Speaks, Bool.or_eq_true, decide_eq_true_eq] at hsp
+        rcases hsp with (rfl | rfl) | rfl
+        · exact n1 hx
+        · exact n2 hx
+        · exact n3 hx
+
+/-- the dialect list is shorter than the fuel, i.e. than ByteCount + 1 -/
+theorem smb1DialectList_length : ∀ (fuel : Nat) (d : Bytes) (ds : List Bytes),
+    Spec.smb1DialectList fuel d = some ds → ds.length < fuel := by
+  intro fuel
+  induction fuel with
+  | zero => intro d ds h; simp [Spec.smb1DialectList] at h
+  | succ n ih =>
+    intro d ds h
+    unfold Spec.smb1DialectList at h
+    split at h
+    · cases h; simp
+    · dsimp only at h
+      split at h
+      · cases h
+      · split at h
+        · rename_i l hl
+          cases h
+          have := ih _ _ hl
+          simp; omega
+        · cases h
+    · cases h
+
 end Masscanned.C17
